@@ -143,9 +143,9 @@ func checkC03(c *Ctx) {
 		}
 	}
 	if c.Thorough() {
-		for _, d1 := range dirs[:6] {
-			for _, d2 := range dirs[:6] {
-				for _, d3 := range dirs[:6] {
+		for _, d1 := range dirs {
+			for _, d2 := range dirs {
+				for _, d3 := range dirs {
 					chains = append(chains, []dirSpec{d1, d2, d3})
 				}
 			}
